@@ -465,6 +465,7 @@ def run_c15(R):
     else:
         R.violation("C15.containers", "count-distinct", "COUNT(DISTINCT) does not collect into a set of values", [up.loc()])
     _update_state(R)
+    _distinct_store(R, "C15.distinct")
     R.assume("the algebraic laws themselves (commutativity / associativity of the folds over runtime values) are not decided; only the structural "
              "necessary conditions above are")
 
@@ -568,3 +569,57 @@ def _percentile_rank(R, rid):
                                                 "the rank is cut short and a too-small element is returned" % (n_desc, m_desc), [c.loc()])
     if not done:
         R.note("%s: PERCENTILE rank clamp not in the `(p * n) as usize).min(m - 1)` form; the n = m agreement is not decided" % rid)
+
+
+def _distinct_store(R, rid):
+    """COUNT(DISTINCT): an update that reports `new value` has recorded that value in the aggregator's collection on the same path"""
+    P = R.prog
+    R.rule(rid, "COUNT(DISTINCT): whenever an update reports a new distinct value (Bool(true)), the value itself was stored in the set of "
+                "values seen (insert / push of the value) on that path; otherwise a later occurrence is counted again")
+    f = R.need_fn(AGG + "GroupAggregator::update")
+    sws = A.enum_switches(f, "aggregate_execution::GroupAggregator")
+    if not sws:
+        R.violation(rid, "update|no-match", "GroupAggregator::update does not match on the aggregator kind", [f.loc()])
+        return
+    arms_, wild, rest = A.arms(f, sws[0])
+    val_args = [a for a in range(1, f.arg_count + 1) if f.local_ty(a) == V]
+    ga = P.adts.get(AGG + "GroupAggregator") or {"variants": []}
+    coll_variants = [v["name"] for v in ga["variants"] if v["fields"] and
+                     any(re.search(r"(HashSet|BTreeSet|Vec|HashMap|BTreeMap)<" + re.escape(V), fl["ty"]) for fl in v["fields"])
+                     and not any(fl["ty"] == "f64" for fl in v["fields"])]
+    n = 0
+    for vn in coll_variants:
+        if vn not in arms_:
+            continue
+        entry, reg = arms_[vn]
+        stores = [c for c in f.calls if c.bb in reg and re.search(r"::(insert|push|push_back|extend_one)$", short(c.name)) and
+                  any(o.kind == "arg" and o.arg in val_args for a_ in c.args[1:] for o in F.origins(f, a_, depth=8))]
+        news = []
+        for i, st in f.stmts():
+            if i in reg and st["k"] == "assign" and st["rv"]["k"] == "aggr" and st["rv"].get("variant") == "Bool" and st["rv"]["ops"]:
+                op = st["rv"]["ops"][0]
+                if op["k"] == "const" and op.get("v") == "true":
+                    news.append((i, st, "const"))
+                elif op["k"] in ("copy", "move"):
+                    os_ = F.origins(f, op, depth=6, through_calls=False)
+                    if any(o.kind == "call" and o.call in stores for o in os_):
+                        continue          # the reported flag is the result of the storing call itself
+                    if any(o.kind == "const" and o.const.get("v") == "true" for o in os_):
+                        news.append((i, st, "maybe-true"))
+        if not news and not stores:
+            continue
+        n += 1
+        bad = None
+        for i, st, how in news:
+            free = f.reachable_from(entry, avoid=set(c.bb for c in stores))
+            if i in free and i not in [c.bb for c in stores]:
+                bad = (i, st)
+        if bad:
+            R.violation(rid, "update|%s|new-without-store" % vn,
+                        "GroupAggregator::update (%s) can report a new distinct value on a path that does not store the value in the "
+                        "aggregator's collection: a later occurrence of the same value is counted again, so the count depends on the order "
+                        "of the lines" % vn, ["%s:%d" % (f.file, bad[1]["line"])])
+        else:
+            R.ok(rid, "update|%s" % vn, "`new` is reported only together with storing the value (%d store site(s))" % len(stores), f.loc(entry))
+    if n == 0:
+        R.note("%s: no collection-backed aggregator variant found" % rid)
